@@ -90,6 +90,52 @@ class _NoOption(Exception):
     pass
 
 
+def clamp_double_precision(ctx: Ctx) -> None:
+    """Bounds that single precision cannot represent (0.1, 1.3, -0.7), given as Python numbers, 0-dim float64 tensors and full
+    float64 tensors, on float64 inputs: outside the interval the result is THE BOUND (the double 0.1, not its float32
+    rounding), inside it the input; inverted bounds give the mean / the upper bound - function and module forms, both modes."""
+    import pfhedge.nn.functional as F
+    from pfhedge.nn import Clamp, LeakyClamp
+    dtype = torch.float64
+    x = torch.tensor([-2.0, 0.05, 0.1, 0.7, 1.3, 1.31, 5.0], dtype=dtype)
+    for lo, hi in ((0.1, 1.3), (-0.7, 0.3), (0.1, None), (None, 1.3), (1.3, 0.1)):
+        for slope in (0.0, 0.01):
+            for mode in ("mean", "max"):
+                exp = []
+                for v in x.tolist():
+                    if lo is not None and hi is not None and lo > hi:
+                        e = hi if mode == "max" else (lo + hi) / 2
+                    elif lo is not None and v < lo:
+                        e = lo + slope * (v - lo)
+                    elif hi is not None and v > hi:
+                        e = hi + slope * (v - hi)
+                    else:
+                        e = v
+                    exp.append(e)
+                want = torch.tensor(exp, dtype=dtype)
+                for spelling in ("number", "0-dim tensor", "tensor"):
+                    def b(v):
+                        if v is None:
+                            return None
+                        return v if spelling == "number" else (torch.tensor(v, dtype=dtype) if spelling == "0-dim tensor" else torch.full_like(x, v))
+                    calls = [("leaky_clamp", lambda: F.leaky_clamp(x.clone(), b(lo), b(hi), clamped_slope=slope, inverted_output=mode)),
+                             ("LeakyClamp", lambda: LeakyClamp(clamped_slope=slope, inverted_output=mode)(x.clone(), b(lo), b(hi)))]
+                    if slope == 0.0:
+                        calls += [("clamp", lambda: F.clamp(x.clone(), b(lo), b(hi), inverted_output=mode)), ("Clamp", lambda: Clamp(inverted_output=mode)(x.clone(), b(lo), b(hi)))]
+                    for name, call in calls:
+                        ctx.count(n=len(exp))
+                        try:
+                            got = call()
+                        except Exception as e:
+                            ctx.violation(f"clamp:{name}:raises", f"{name} raised {type(e).__name__} for bounds ({lo}, {hi}) given as {spelling}", {"error": repr(e)[:200]})
+                            continue
+                        if got.dtype != dtype or not bool(((got - want).abs() <= 1e-15 * (1 + want.abs())).all()):
+                            i = int(((got - want).abs() > 1e-15 * (1 + want.abs())).nonzero()[0]) if got.shape == want.shape else 0
+                            ctx.violation(f"clamp:{name}:double-precision", f"{name} on float64 inputs with bounds ({lo}, {hi}) given as {spelling}: not the documented value to double precision "
+                                          "(the bound itself outside the interval)", {"input": x[i].item(), "min": lo, "max": hi, "slope": slope, "mode": mode, "spelling": spelling,
+                                                                                  "expected": want[i].item(), "observed": got.flatten()[i].item()})
+
+
 def _module(cls, ctx: Ctx, name: str, kw: Dict[str, Any]):
     try:
         return cls(**kw)
@@ -312,6 +358,7 @@ def check(ctx: Ctx) -> None:
     if not rc.records or not rw.records:
         raise MachineryError("no record")
     replay_clamp(ctx, rc.records)
+    clamp_double_precision(ctx)
     replay_ww(ctx, rw.records, 8)
     replay_helpers(ctx, rw.records)
     for r in rc.records + rw.records:
